@@ -63,7 +63,7 @@ Qed.
 (* ---- leaves ---- *)
 Definition leaf_opq (k : leafk) : bool :=
   match k with
-  | LPkgFund _ _ | LOpaqueErrno _ _ | LFmtWrapNil _ | LUser _ _ _ _ => true
+  | LPkgFund _ _ | LFmtWrapNil _ | LUser _ _ _ _ => true
   | _ => false
   end.
 
@@ -71,9 +71,21 @@ Lemma hop_leaf_exact i k n : exact_leaf k = true -> exists j, fst (hopk (Leaf i 
 Proof.
   intro H. destruct k; try discriminate H; try (eexists; reflexivity).
   - cbn [exact_leaf] in H. apply negb_true_iff in H. eexists. unfold hop. enc_step.
+    fam_is (Leaf i (LOpaqueErrno msg p)) k_opaqueErrno. rewrite H. reflexivity.
+  - cbn [exact_leaf] in H. apply negb_true_iff in H. eexists. unfold hop. enc_step.
     fam_is (Leaf i (LGrpcStatus code msg)) k_grpcStatus. rewrite H. reflexivity.
   - cbn [exact_leaf] in H. apply negb_true_iff in H. eexists. unfold hop. enc_step.
     fam_is (Leaf i (LGogoStatus code msg)) k_gogoStatus. rewrite H. reflexivity.
+Qed.
+
+(* a forwarded errno that carries the platform of the decoding process is turned
+   back into a syscall.Errno (whatever message it stored) *)
+Lemma hop_leaf_errno_back i msg pe n :
+  str_eqb (en_arch pe) this_arch = true ->
+  exists j, fst (hopk (Leaf i (LOpaqueErrno msg pe)) n) = Leaf j (LErrno (en_errno pe)).
+Proof.
+  intro H. eexists. unfold hop. enc_step.
+  fam_is (Leaf i (LOpaqueErrno msg pe)) k_opaqueErrno. rewrite H. reflexivity.
 Qed.
 
 Lemma hop_leaf_opq i k n :
@@ -149,7 +161,7 @@ Qed.
 
 (* wrappers without decoder that print something: generic opaque wrapper *)
 Definition wgeneric (w : wlayer) : bool :=
-  match w with WFmtWrap _ | WUser _ _ _ => true | _ => false end.
+  match w with WFmtWrap _ | WUser _ _ _ | WOpError _ _ _ _ => true | _ => false end.
 
 Lemma hop_wrap_generic i w c n :
   wgeneric w = true ->
@@ -158,7 +170,9 @@ Lemma hop_wrap_generic i w c n :
     OWrap j (fst (extract_prefix (error_text (Wrap i w c)) (error_text c))) d
           (snd (extract_prefix (error_text (Wrap i w c)) (error_text c))) (fst (hopk c n)).
 Proof.
-  intro H. unfold hop. destruct w as [| | | | | | | | | | | | | |m| | | | | |u m xs]; try discriminate H; cbn [encode].
+  intro H. unfold hop. destruct w as [| | | | | | | | | | | | | |m| | | | | |op net src addr|u m xs]; try discriminate H; cbn [encode].
+  - destruct (extract_prefix _ _) as [p mt]. unfold mk_details; cbn [type_details decode fst snd].
+    destruct (decode all_knowing (encode c) n) as [ec n0]. do 2 eexists. split; [|reflexivity]. reflexivity.
   - destruct (extract_prefix _ _) as [p mt]. unfold mk_details; cbn [type_details decode fst snd].
     destruct (decode all_knowing (encode c) n) as [ec n0]. do 2 eexists. split; [|reflexivity]. reflexivity.
   - destruct (extract_prefix _ _) as [p mt]. unfold mk_details; cbn [type_details decode fst snd].
@@ -294,7 +308,12 @@ Fixpoint tok (s : bool) (e : err) {struct e} : bool :=
   match e with
   | Leaf i k =>
     match k with
-    | LPkgFund m _ | LOpaqueErrno m _ | LFmtWrapNil m | LUser _ m _ _ => opt s (unsafe_ok m)
+    | LPkgFund m _ | LFmtWrapNil m | LUser _ m _ _ => opt s (unsafe_ok m)
+    (* a forwarded errno: from a foreign platform it comes back as the same value (any
+       message); with the platform of the decoding process it comes back as the
+       syscall.Errno, whose text is the table's, not the stored message *)
+    | LOpaqueErrno m pe =>
+      (negb (str_eqb (en_arch pe) this_arch) || str_eqb m (errno_text (en_errno pe))) && opt s (plain_tree e)
     | LGrpcStatus c _ | LGogoStatus c _ => negb (c =? 0) && opt s (plain_tree e)
     | _ => opt s (plain_tree e)
     end
@@ -310,6 +329,16 @@ Fixpoint tok (s : bool) (e : err) {struct e} : bool :=
     | WPkgMsg m => opt s (no_nl t && nonempty m) && tok s c
     | WFmtWrap _ | WUser _ _ _ =>
       opt s (no_nl t) &&
+      (let '(p, mt) := extract_prefix t ct in
+       if mt =? 1 then opt s (unsafe_ok t) && tok false c
+       else match p with
+            | [] => str_eqb t ct && tok s c
+            | _ => opt s (unsafe_ok p) && tok true c
+            end)
+    (* *net.OpError: no encoder/decoder, the generic path as for the two above; what
+       strict mode asks is the plainness of the head (at most one of src, addr) *)
+    | WOpError op net src addr =>
+      opt s (operror_ok op net src addr) &&
       (let '(p, mt) := extract_prefix t ct in
        if mt =? 1 then opt s (unsafe_ok t) && tok false c
        else match p with
@@ -359,7 +388,7 @@ Proof.
     intro H.
   - destruct k as [| |m stk| |m pe| |m url det|c m|c m| |m|u m t xs]; cbn [tok opt negb orb] in H; try exact H.
     + cbn [plain_tree plain_leaf]. now rewrite (unsafe_nonempty m H), (unsafe_no_nl m H).
-    + cbn [plain_tree plain_leaf leaf_text]. now apply unsafe_direct.
+    + now apply andb_true_iff in H as [_ H].
     + now apply andb_true_iff in H as [_ H].
     + now apply andb_true_iff in H as [_ H].
     + cbn [plain_tree plain_leaf leaf_text]. now apply unsafe_direct.
@@ -393,6 +422,13 @@ Proof.
     + (* WPathError *) apply andb_true_iff in H as [H Hc]. now rewrite H, (IH Hc).
     + (* WLinkError *) apply andb_true_iff in H as [H Hc]. now rewrite H, (IH Hc).
     + (* WSyscallError *) apply andb_true_iff in H as [H Hc]. now rewrite H, (IH Hc).
+    + (* WOpError *) apply andb_true_iff in H as [Hok H]. rewrite Hok. cbn [andb].
+      change (error_text (Wrap i (WOpError op net src addr) c))
+        with (operror_head op net src addr ++ colon_sp ++ error_text c) in H.
+      rewrite extract_prefix_colon in H. cbn [N.eqb] in H.
+      destruct (operror_ok_parts _ _ _ _ Hok) as (_ & _ & _ & _ & _ & _ & _ & Hne).
+      destruct (operror_head op net src addr) as [|x hd]; [congruence|].
+      apply andb_true_iff in H as [_ H]. now apply IH.
     + (* WUser *) apply andb_true_iff in H as [Hn H].
       apply (Hsimple (error_text (Wrap i (WUser u msg xs) c)) (error_text c)); [exact Hn|].
       destruct (extract_prefix _ _) as [p mt]. destruct (mt =? 1).
@@ -592,11 +628,17 @@ Proof.
     + destruct (hop_leaf_opq i k n Eo) as (j & d & -> & Hd). split; [reflexivity|].
       cbn [tok forallb]. rewrite Hd, andb_true_r. cbn [andb].
       destruct k; try discriminate Eo; exact H.
-    + assert (Hex : exact_leaf k = true).
-      { destruct k; try discriminate Eo; try reflexivity;
-          cbn [tok] in H; apply andb_true_iff in H as [H _]; exact H. }
-      destruct (hop_leaf_exact i k n Hex) as [j ->]. split; [reflexivity|].
-      now rewrite (tok_leaf_oid s i j k).
+    + destruct (exact_leaf k) eqn:Hex.
+      * destruct (hop_leaf_exact i k n Hex) as [j ->]. split; [reflexivity|].
+        now rewrite (tok_leaf_oid s i j k).
+      * destruct k; try discriminate Eo; try discriminate Hex; cbn [exact_leaf] in Hex; cbn [tok] in H.
+        -- (* forwarded errno of this platform: back to syscall.Errno *)
+           rewrite Hex in H. cbn [orb] in H. apply andb_true_iff in H as [Hm _].
+           apply str_eqb_eq in Hm. subst msg. apply negb_false_iff in Hex.
+           destruct (hop_leaf_errno_back i (errno_text (en_errno p)) p n Hex) as [j ->].
+           split; [reflexivity|]. cbn [tok]. rewrite plain_errno. destruct s; reflexivity.
+        -- apply andb_true_iff in H as [H _]. congruence.
+        -- apply andb_true_iff in H as [H _]. congruence.
   - (* Wrap *)
     set (c' := fst (hopk c n)).
     assert (IH' : forall s', tok s' c = true -> good s' c c') by (intros s' Hs'; exact (IH s' n Hs')).
@@ -661,6 +703,11 @@ Proof.
     + (* WSyscallError *)
       apply andb_true_iff in H as [H1 H2].
       apply (Hcat (opt s (unsafe_ok sc))); [reflexivity|discriminate|exact H2|reflexivity|exact H1].
+    + (* WOpError *)
+      apply andb_true_iff in H as [_ H].
+      destruct (hop_wrap_generic i (WOpError op net src addr) c n eq_refl) as (j & d & Hd & ->). fold c'.
+      destruct (extract_prefix (error_text (Wrap i (WOpError op net src addr) c)) (error_text c)) as [p mt] eqn:E.
+      cbn [fst snd]. now apply (generic_good s (Wrap i (WOpError op net src addr) c) c c' j d p mt).
     + (* WUser *)
       apply andb_true_iff in H as [_ H].
       destruct (hop_wrap_generic i (WUser u msg xs) c n eq_refl) as (j & d & Hd & ->). fold c'.
@@ -799,6 +846,9 @@ Proof.
     + apply andb_true_iff in H as [_ H]. destruct (extract_prefix _ _) as [p mt]. destruct (mt =? 1).
       * now apply andb_true_iff in H as [_ H].
       * destruct p; apply andb_true_iff in H as [H1 H2]; [now rewrite H1, (IH H2)|exact H2].
+    + apply andb_true_iff in H as [_ H]. destruct (extract_prefix _ _) as [p mt]. destruct (mt =? 1).
+      * now apply andb_true_iff in H as [_ H].
+      * destruct p; apply andb_true_iff in H as [H1 H2]; [now rewrite H1, (IH H2)|exact H2].
   - cbn [tok] in H |- *. now apply IHc.
   - reflexivity.
   - destruct k; cbn [tok opt negb orb andb] in H |- *.
@@ -832,6 +882,29 @@ Lemma text_ok_conditions_needed :
   text_changes (Wrap 101%positive (WPrefix (lit "p")) (u_leaf [226; 128; 185; 120])).
 Proof. unfold text_changes. repeat split; vm_compute; try reflexivity; discriminate. Qed.
 
+(* the clauses added for the forwarded errno and for *net.OpError *)
+Definition errno_here (m : str) (n : Z) : err :=
+  Leaf 100%positive (LOpaqueErrno m (mkerrno n this_arch true false false false false)).
+
+Lemma text_ok_conditions_needed_errno_operror :
+  (* a forwarded errno carrying the platform of the decoding process comes back as the
+     syscall.Errno: Error() becomes the table's text, not the stored message *)
+  text_changes (errno_here (lit "eperm") 1%Z) /\
+  error_text (fst (hop all_knowing (errno_here (lit "eperm") 1%Z) 200%positive)) = lit "operation not permitted" /\
+  (* ... with the table's text as message nothing changes, and from a foreign platform any message is kept *)
+  text_ok (errno_here (lit "operation not permitted") 1%Z) = true /\
+  text_ok (Leaf 100%positive (LOpaqueErrno (lit "eperm") (mkerrno 1%Z (lit "plan9:mips") true false false false false))) = true /\
+  (* a *net.OpError with an entirely empty head prints ": " ++ cause: extractPrefix drops it *)
+  text_changes (Wrap 101%positive (WOpError [] [] [] []) (u_leaf (lit "x"))) /\
+  (* strict mode: below a withPrefix and a layer with a Format method (here withStack), Source and
+     Addr together are printed "src -> addr" by the engine while Error() says "src->addr"; the hop
+     stores Error() as the opaque prefix, so the text of the withPrefix node changes *)
+  tok true (Wrap 101%positive (WOpError (lit "dial") (lit "tcp") (lit "a") (lit "b")) (u_leaf (lit "x"))) = false /\
+  text_ok (Wrap 101%positive (WOpError (lit "dial") (lit "tcp") (lit "a") (lit "b")) (u_leaf (lit "x"))) = true /\
+  text_changes (Wrap 103%positive (WPrefix (lit "p")) (Wrap 102%positive (WStack [])
+                  (Wrap 101%positive (WOpError (lit "dial") (lit "tcp") (lit "a") (lit "b")) (u_leaf (lit "x"))))).
+Proof. unfold text_changes. repeat split; vm_compute; try reflexivity; discriminate. Qed.
+
 (* ================================================================== *)
 (* 8. the predicate is not vacuous: every kind without decoder occurs   *)
 (* ================================================================== *)
@@ -859,7 +932,15 @@ Definition text_ok_samples : list err :=
     Second xP (Wrap xP (WPathError (lit "open") (lit "/x")) (Leaf xP (LErrno 2%Z))) (u_leaf []);
     Barrier xP (lit "b") (u_leaf []);
     (* annotation layers whose decoder falls back to the opaque wrapper *)
-    Wrap xP (WContext [] None) (Wrap xP (WMark (mkem (lit "m") [])) (Wrap xP (WHTTP (-1)%Z) (Leaf xP LDeadline))) ].
+    Wrap xP (WContext [] None) (Wrap xP (WMark (mkem (lit "m") [])) (Wrap xP (WHTTP (-1)%Z) (Leaf xP LDeadline)));
+    (* withPrefix over *net.OpError (one of Source / Addr) over a forwarded errno of this platform
+       that stores the table's text *)
+    Wrap xP (WPrefix (lit "p"))
+         (Wrap xP (WOpError (lit "dial") (lit "tcp") [] (lit "10.0.0.1:80"))
+               (Leaf xP (LOpaqueErrno (lit "connection timed out")
+                                      (mkerrno 110%Z this_arch false false false false true))));
+    (* not in strict mode: *net.OpError with both Source and Addr *)
+    Wrap xP (WStack []) (Wrap xP (WOpError (lit "read") (lit "udp") (lit "a:1") (lit "b:2")) (u_leaf (lit "x"))) ].
 
 Lemma text_ok_samples_ok : forallb text_ok text_ok_samples = true.
 Proof. vm_compute. reflexivity. Qed.
